@@ -66,6 +66,9 @@ impl Outcome {
     }
 }
 
+/// the property being checked or replayed (for verdicts raised outside an engine's own oracles)
+pub static CURRENT_PROPERTY: std::sync::Mutex<String> = std::sync::Mutex::new(String::new());
+
 pub trait Engine: Sync {
     type Case: Serialize + DeserializeOwned + std::fmt::Debug;
     fn name(&self) -> &'static str;
@@ -79,6 +82,33 @@ pub trait Engine: Sync {
     /// shrink iterations allowed (slow engines use fewer)
     fn shrink_iters(&self) -> u32 {
         3000
+    }
+    /// `run`, with a panic raised inside the code under test (a source file of the h2 checkout) turned into a verdict:
+    /// the component engines call h2 directly, without the simulator's containment. Panics of the harness itself
+    /// are passed on (infrastructure failure).
+    fn run_contained(&self, case: &Self::Case, property: &str) -> Outcome {
+        let fallback = CURRENT_PROPERTY.lock().map(|p| p.clone()).unwrap_or_default();
+        let property: &str = if property.is_empty() { &fallback } else { property };
+        match std::panic::catch_unwind(std::panic::AssertUnwindSafe(|| self.run(case))) {
+            Ok(out) => out,
+            Err(payload) => {
+                let msg = crate::util::take_panic().unwrap_or_default();
+                let loc = msg.rsplit(" @ ").next().unwrap_or("").to_string();
+                let in_h2 = loc.starts_with('/') && loc.contains("/src/") && !loc.contains(".cargo/registry") && !loc.contains("/rustc/") && !loc.contains("/verif/") && !loc.contains("/harness/");
+                if !in_h2 {
+                    crate::util::put_panic(msg);
+                    std::panic::resume_unwind(payload);
+                }
+                let mut out = Outcome::default();
+                out.nontrivial = true;
+                let sig = crate::oracles::panic_signature(&msg);
+                out.fail("C08", "panic", format!("C08/panic/{}", sig), format!("engine {}: the code under test panicked: {}", self.name(), msg));
+                if property != "C08" && !property.is_empty() {
+                    out.fail(property, "panic", format!("{}/panic/{}", property, sig), format!("engine {}: the code under test panicked: {}", self.name(), msg));
+                }
+                out
+            }
+        }
     }
 }
 
@@ -324,7 +354,7 @@ fn drive_worker<E: Engine>(eng: &E, ctx: &Ctx, w: usize, cases: u64, stop: &Atom
         let r = std::panic::catch_unwind(std::panic::AssertUnwindSafe(|| {
             let case = eng.gen(&tapes);
             set_current(w, Some((std::time::Instant::now(), eng.name(), serde_json::to_vec(&case).unwrap_or_default())));
-            let out = eng.run(&case);
+            let out = eng.run_contained(&case, &property);
             set_current(w, None);
             (case, out)
         }));
@@ -370,7 +400,7 @@ fn drive_worker<E: Engine>(eng: &E, ctx: &Ctx, w: usize, cases: u64, stop: &Atom
         Ok(()) => {}
         Err(TestError::Fail(_, tapes)) => {
             let case = eng.gen(&tapes);
-            let out = eng.run(&case);
+            let out = eng.run_contained(&case, &property);
             let sig = first_fail.borrow().clone().unwrap_or_default();
             let v = out
                 .violations
@@ -434,7 +464,7 @@ fn sanitize(s: &str) -> String {
 /// Replay one saved case through an engine.
 pub fn replay_case<E: Engine>(eng: &E, case: &Value) -> Outcome {
     let c: E::Case = serde_json::from_value(case.clone()).expect("replay file: case does not match engine");
-    eng.run(&c)
+    eng.run_contained(&c, "")
 }
 
 /// Run every committed replay of this property (regression tier). Files whose
